@@ -372,6 +372,11 @@ def run_shard(shard):
                             with worker.guarded(acc, "add", {"kind": "dt", "z": z, "f": [y, m, d, 13, 30, 15, 123456], "kw": kw}):
                                 check_dt(acc, pendulum, z, (y, m, d, 13, 30, 15, 123456), kw,
                                          durations=(i % 3 == d % 3) or shard["thorough"])
+                        if d >= 28 and i % 2 == m % 2:
+                            # fixed-offset receivers whose UTC date is the next / previous day (and, at month ends, month)
+                            for z, tod in ((-18000, (23, 30, 0, 5)), (19800, (1, 30, 0, 5))):
+                                with worker.guarded(acc, "add", {"kind": "dt", "z": z, "f": [y, m, d, *tod], "kw": kw}):
+                                    check_dt(acc, pendulum, z, (y, m, d) + tod, kw, durations=False)
         acc.sample({"start": [shard["years"][0], 1, 31], "amount": A[9], "zones": [str(z) for z in shard["zones"]]})
     elif k == "dst-target":
         # starts chosen so that the target wall time is skipped / repeated
